@@ -108,15 +108,98 @@ let fixed_symbol_order = true
 (* third declared feature: manyrefs = a references query with more hits than ReferenceMaxNum (the list is cut in the
    completion order of the worker goroutines: finding C09-references-cut, open; fixes/C09-references-cut.diff) *)
 let fixed_references_cut = true
+(* fourth declared feature: project = a project-mode workspace (luahelper.json with ProjectFiles): before
+   fixes/C09-project-order.diff the first-phase _G table of a project, the provider of a member added by several files
+   and the choice among equally large projects followed Go map order (findings C09-project-order / C09-project-tie);
+   modelled: project_merge_ws / member_provider / pick_project, leg c09.projtable *)
+let fixed_project_order = true
+(* fifth declared feature: sharedmembers = several project entry files AND members added to a global table by other
+   files: the insertions go into a VarInfo all projects share, from concurrently running goroutines (finding
+   C09-project-shared-members, fixed ebeeeaa; fixes/C09-project-members.diff; not modelled: the repetition leg demands a singleton) *)
+let fixed_shared_members = true
 let () = register "c09.srvrep" (fun line ->
   match split_ws line with
   | _ :: feats :: _ ->
     let fl = split_list feats in
     let cls = (if List.mem "dupclass" fl && not fixed_class_order then ["dup_class"] else [])
+            @ (if List.mem "project" fl && not fixed_project_order then ["project_order"] else [])
+            @ (if List.mem "sharedmembers" fl && not fixed_shared_members then ["shared_members"] else [])
             @ (if List.mem "manysyms" fl && not fixed_symbol_order then ["many_symbols"] else [])
             @ (if List.mem "manyrefs" fl && not fixed_references_cut then ["many_references"] else []) in
     if cls <> [] then "{STABLE|UNSTABLE}\t{STABLE}\t" ^ String.concat "," cls
     else "{STABLE}\t{STABLE}\t-"
+  | _ -> "BAD-CASE")
+
+(* case: "<nreps> <entries> <structure> <queries> <scripted session>": a project-mode workspace in the real server.
+   structure: records `<file>/<_G. definitions>/<plain definitions>/<references>/<members added>` joined by `;`
+   (definitions `name:line:col`, references `r<i>` = require, `d<i>` = dofile of record i, members `T.x:line:col`);
+   entries: record indices of the ProjectFiles; queries: `g:<i>:<name>` go-to-definition on the global from file i,
+   `m:<i>:<T.x>` on the member. The model: the project is chosen by pick_project among the projects whose file set
+   (the closure of the entry under the references = scanProjectAllFiles) contains file i, its table is
+   project_merge_ws, a member's provider member_provider - all with fx = fixed_project_order; the answer is a
+   singleton for the repaired code. *)
+let split_on c s = if s = "-" || s = "" then [] else String.split_on_char c s
+type prec = { pfile : n list; gi : (n list * gvar) list; pi : (n list * gvar) list;
+              prefs : (bool * int) list; pmem : (n list * int) list }
+let () = register "c09.projtable" (fun line ->
+  match split_ws line with
+  | _ :: entries :: structure :: queries :: _ ->
+    let cols = ref [] in
+    let parse_rec r =
+      match String.split_on_char '/' r with
+      | [fh; g; p; rf; mm] ->
+        let f = bytes_of_hex fh in
+        let item it = match String.split_on_char ':' it with
+          | [nm; l; c] ->
+            cols := ((f, int_of_string l), int_of_string c) :: !cols;
+            (bytes_of_hex nm, { gv_file = f; gv_funclv = n_of_int 0; gv_scopelv = n_of_int 0; gv_line = n_of_int (int_of_string l) })
+          | _ -> failwith "bad item" in
+        { pfile = f; gi = List.map item (split_on ',' g); pi = List.map item (split_on ',' p);
+          prefs = List.map (fun x -> (x.[0] = 'r', int_of_string (String.sub x 1 (String.length x - 1)))) (split_on ',' rf);
+          pmem = List.map (fun it -> let (k, v) = item it in (k, int_of_n v.gv_line)) (split_on ',' mm) }
+      | _ -> failwith "bad record" in
+    let recs = Array.of_list (List.map parse_rec (String.split_on_char ';' structure)) in
+    let rec_of f = List.find (fun r -> r.pfile = f) (Array.to_list recs) in
+    let closure e =
+      let rec go seen = function
+        | [] -> List.rev seen
+        | i :: todo -> if List.mem i seen then go seen todo else go (i :: seen) (List.map snd recs.(i).prefs @ todo) in
+      go [] [e] in
+    let ents = List.map int_of_string (split_on ',' entries) in
+    let g_of k = (rec_of k).gi and plain_of k = (rec_of k).pi in
+    let refers_of k = List.map (fun (b, i) -> (b, recs.(i).pfile)) (rec_of k).prefs in
+    let fx = fixed_project_order in
+    let rng f l c len = Printf.sprintf "define=[%s@%d:%d-%d:%d]" (string_of_bytes f) (l - 1) c (l - 1) (c + len) in
+    let answer q =
+      match String.split_on_char ':' q with
+      | [kind; qi; nh] ->
+        let qi = int_of_string qi and name = bytes_of_hex nh in
+        let projs = List.filter (fun e -> List.mem qi (closure e)) ents in
+        let ps = List.map (fun e -> (recs.(e).pfile, n_of_int (List.length (closure e)))) projs in
+        let chosen =
+          if fx then (match pick_project true ps with Some e -> [e] | None -> [])
+          else (let mx = List.fold_left (fun m (_, n) -> max m (int_of_n n)) 0 ps in
+                List.map fst (List.filter (fun (_, n) -> int_of_n n = mx) ps)) in
+        let one entry =
+          let e = List.find (fun e -> recs.(e).pfile = entry) ents in
+          let files = List.map (fun i -> recs.(i).pfile) (closure e) in
+          if kind = "g" then begin
+            let vs = if fx then (match winner (project_merge_ws true g_of plain_of refers_of files) name with Some v -> [v] | None -> [])
+                     else vars_of name (project_items false g_of plain_of refers_of files) in
+            List.map (fun v -> let l = int_of_n v.gv_line in
+                               rng v.gv_file l (List.assoc (v.gv_file, l) !cols) (List.length name)) vs
+          end else begin
+            let adds f key = List.mem_assoc key (rec_of f).pmem in
+            let fs = if fx then (match member_provider true adds files name with Some f -> [f] | None -> [])
+                     else List.filter (fun f -> adds f name) files in
+            let mlen = List.length name - 2 in
+            List.map (fun f -> let l = List.assoc name (rec_of f).pmem in rng f l (List.assoc (f, l) !cols) mlen) fs
+          end in
+        let all = List.concat_map one chosen in
+        if all = [] then "{NONE}" else set_s all
+      | _ -> "{BAD-QUERY}" in
+    let m = String.concat ";" (List.map answer (split_on ',' queries)) in
+    m ^ "\t" ^ m ^ "\t-"
   | _ -> "BAD-CASE")
 
 let () = main ()
